@@ -1142,30 +1142,44 @@ Definition ada (k : Z) : value := mkValue (k * 1000000) [].
 Definition tokA : bytes * bytes := (hx "01010101010101010101010101010101010101010101010101010101", hx "61").
 Definition with_tok (k q : Z) : value := mkValue (k * 1000000) [(fst tokA, [(snd tokA, q)])].
 
+Lemma content_single_any p n q p' n' :
+  content [(p, [(n, q)])] p' n' = if bytes_eqb p p' then if bytes_eqb n n' then q else 0 else 0.
+Proof. unfold content, mget, aget. cbn. destruct (bytes_eqb p p'); cbn; [destruct (bytes_eqb n n')|]; reflexivity. Qed.
+Lemma wfv_ada k : wfv (ada k).
+Proof. split; constructor. Qed.
+Lemma wfv_tok k q : wfv (with_tok k q).
+Proof. split; repeat constructor; cbn; intuition. Qed.
+Lemma v_nonneg_ada k : 0 <= k -> v_nonneg (ada k).
+Proof. intros H. split; [cbn; lia | intros p n; cbn; lia]. Qed.
+Lemma v_nonneg_tok k q : 0 <= k -> 0 <= q -> v_nonneg (with_tok k q).
+Proof.
+  intros Hk Hq. split; [cbn; lia|]. intros p n. unfold with_tok. cbn [massets]. rewrite content_single_any.
+  destruct (bytes_eqb (fst tokA) p); [destruct (bytes_eqb (snd tokA) n)|]; lia.
+Qed.
+
 (* hypotheses of lf_idx_sound / ri_idx_sound are satisfiable with a non-trivial run (token request, min-change top-up) *)
 Example lf_example :
   let pool := [ada 5; with_tok 2 3; ada 1; ada 1] in
   let outs := [with_tok 1 2; ada 3] in
   Forall wfv pool /\ Forall v_nonneg pool /\ Forall wfv outs /\
-  lf_select_idx pool outs (Some 3) 300000 (Some (fun _ => 1100000))
+  lf_select_idx pool outs (Some 3) 300000 (Some (fun _ => 3000000))
   = Ok ([0; 1; 3]%nat, mkValue 3700000 [(fst tokA, [(snd tokA, 1)])]).
 Proof.
   cbv zeta. split; [|split; [|split]]; [| | |vm_compute; reflexivity].
-  - repeat constructor; cbn; intuition discriminate.
-  - repeat constructor; cbn; try lia; intros p n; unfold content, mget, aget; cbn;
-      repeat (match goal with |- context [bytes_eqb ?a ?b] => destruct (bytes_eqb a b) end; cbn); lia.
-  - repeat constructor; cbn; intuition discriminate.
+  - repeat (constructor; [first [apply wfv_ada | apply wfv_tok]|]). constructor.
+  - repeat (constructor; [first [apply v_nonneg_ada | apply v_nonneg_tok]; lia|]). constructor.
+  - repeat (constructor; [first [apply wfv_ada | apply wfv_tok]|]). constructor.
 Qed.
 
 Example ri_example :
   let pool := [ada 5; with_tok 2 3; ada 1; ada 1] in
-  ri_select_idx false [2; 0; 0; 1; 0; 0; 0] pool [with_tok 1 2; ada 3] (Some 3) 300000 (Some (fun _ => 1100000))
-  = Ok ([1; 0]%nat, mkValue 2700000 [(fst tokA, [(snd tokA, 1)])])
+  ri_select_idx false [2; 0; 0; 1; 0; 0; 0] pool [with_tok 1 2; ada 3] (Some 3) 300000 (Some (fun _ => 3000000))
+  = Ok ([2; 0; 1]%nat, mkValue 3700000 [(fst tokA, [(snd tokA, 1)])])
   /\ ri_select_idx true [7; -3; 12; 5; 1; 0; 0; 0; 0; 0; 0; 0; 0; 0; 0; 0; 0; 0; 0; 0] pool [with_tok 1 2; ada 3] (Some 3) 300000
-       (Some (fun _ => 1100000))
-     = Ok ([1; 0]%nat, mkValue 2700000 [(fst tokA, [(snd tokA, 1)])])
+       (Some (fun _ => 3000000))
+     = Ok ([3; 0; 1]%nat, mkValue 3700000 [(fst tokA, [(snd tokA, 1)])])
   /\ (ri_draw_bound (index_pool pool) (req_total 300000 [with_tok 1 2; ada 3]) <= 20)%nat.
-Proof. vm_compute. repeat split; try reflexivity. lia. Qed.
+Proof. cbv zeta. split; [vm_compute; reflexivity | split; [vm_compute; reflexivity | vm_compute; lia]]. Qed.
 
 (* largest-first insufficient: both disjuncts of lf_idx_complete occur *)
 Example lf_insufficient_examples :
